@@ -1,7 +1,7 @@
 //@ region loop_ops_specs props=C06,C07,C09,C14,C15,C01,C16
 /// frame used by all four token operations: entries of the lifecycle set belonging to other sources are untouched,
 /// the set stays duplicate free, and the only entry that may appear is `own`
-pub open spec fn extra_frame(o: &AdditionalLifecycleEventsSet, n: &AdditionalLifecycleEventsSet, own: RegistrationToken) -> bool {
+pub(crate) open spec fn extra_frame(o: &AdditionalLifecycleEventsSet, n: &AdditionalLifecycleEventsSet, own: RegistrationToken) -> bool {
     &&& o@.no_duplicates() ==> n@.no_duplicates()
     &&& forall|x: RegistrationToken| x != own ==> (#[trigger] n@.contains(x) <==> o@.contains(x))
 }
@@ -46,11 +46,10 @@ fn enable_body(&self, sources: &SourceList<'l, Data>, poll: &mut Poll, extra: &m
 //@ entry
     proof {
         // the slot token of the addressed slot, sub-id cleared, IS the user's registration token (hint over parameters only)
-        broadcast use TokenInner::lemma_forget, RegistrationToken::lemma_of;
+        broadcast use TokenInner::lemma_forget, TokenInner::lemma_forget_idem, RegistrationToken::lemma_of;
         token.lemma_of_tok();
         if sources.lookup(token.tok()) is Some {
             TokenInner::lemma_ext(sources@[token.tok().sid()].tok().forget(), token.tok());
-            TokenInner::lemma_ext(sources@[token.tok().sid()].tok().forget().forget(), token.tok());
         }
     }
 //@ endslice
@@ -90,11 +89,10 @@ fn update_body(&self, sources: &SourceList<'l, Data>, poll: &mut Poll, extra: &m
 //@ entry
     proof {
         // the slot token of the addressed slot, sub-id cleared, IS the user's registration token (hint over parameters only)
-        broadcast use TokenInner::lemma_forget, RegistrationToken::lemma_of;
+        broadcast use TokenInner::lemma_forget, TokenInner::lemma_forget_idem, RegistrationToken::lemma_of;
         token.lemma_of_tok();
         if sources.lookup(token.tok()) is Some {
             TokenInner::lemma_ext(sources@[token.tok().sid()].tok().forget(), token.tok());
-            TokenInner::lemma_ext(sources@[token.tok().sid()].tok().forget().forget(), token.tok());
         }
     }
 //@ endslice
